@@ -39,11 +39,11 @@ var padBlob = func() []byte {
 }()
 
 type absNode struct {
-	off, cmax          int64
-	ar, ar2, ver, cod  int
-	dmg                int // 0 none, 1 magic, 2 reserved byte, 3 checksum
-	dptr, cptr         []int64
-	ttag, clen, stag   []int
+	off, cmax         int64
+	ar, ar2, ver, cod int
+	dmg               int // 0 none, 1 magic, 2 reserved byte, 3 checksum
+	dptr, cptr        []int64
+	ttag, clen, stag  []int
 }
 
 func put48(b []byte, v int64) {
